@@ -139,7 +139,7 @@ class Engine(object):
 
   def current_facade(self):
     t = self.me()
-    return t.facade if t is not None else _T.current_thread()
+    return t.facade if t is not None else _ORIG_CURRENT_THREAD()
 
   def _finish(self, reason):
     if self.finished is None:
@@ -638,6 +638,9 @@ class ThreadingNS(object):
     return getattr(_T, name)
 
 
+_ORIG_CURRENT_THREAD = _T.current_thread
+
+
 def install_threads(sim, eng):
   """Replace the threading seams of recoco / core in a forked child.  Must
   run after simkit.sim.install(sim)."""
@@ -651,4 +654,8 @@ def install_threads(sim, eng):
   sim.select_threaded = eng.select
   # time.sleep from controlled threads blocks them in virtual time
   sim.sleep = eng.sleep
+  # code that asks the threading module itself (a function-local `import
+  # threading` in pox.core, say) sees the same thread objects as recoco does
+  _T.current_thread = eng.current_facade
+  _T.currentThread = eng.current_facade
   return ns
